@@ -1,7 +1,7 @@
 #!/usr/bin/env python3
 """Evaluate one seeded change (a directory with patch.diff, demo.rs, meta.json) in isolation.
 
-  tools/eval_mutant.py <dir> [--slot N] [--skip-suite] [--skip-demo] [--tiers quick,thorough] [--props C01,C02]
+  tools/eval_mutant.py <dir> [--slot N] [--skip-suite] [--skip-demo] [--skip-checks] [--update] [--tiers quick,thorough] [--props C01,C02]
 
 Nothing is applied to /repo: a scratch worktree of /repo's HEAD (/root/wt/evalrepo<N>) receives the patch, and a scratch
 worktree of /verif's committed HEAD (/root/wt/evalverif<N>, `repo` symlink -> the scratch repo) runs the registered checks.
@@ -34,7 +34,10 @@ def main():
         sh("git -C /repo worktree remove --force %s; git -C /verif worktree remove --force %s" % (repo_wt, verif_wt)); return
     meta = json.load(open(os.path.join(d, "meta.json")))
     props = a[a.index("--props") + 1].split(",") if "--props" in a else [meta["property"]]
-    res = {"dir": d, "when": time.strftime("%Y-%m-%dT%H:%M:%SZ", time.gmtime()), "props": props}
+    res = {}
+    if os.path.exists(os.path.join(d, "eval.json")) and "--update" in a:
+        res = json.load(open(os.path.join(d, "eval.json")))
+    res.update({"dir": d, "when": time.strftime("%Y-%m-%dT%H:%M:%SZ", time.gmtime()), "props": props})
     # scratch repo at /repo's HEAD
     if not os.path.isdir(repo_wt):
         sh("git -C /repo worktree add --detach %s HEAD" % repo_wt)
@@ -54,7 +57,7 @@ def main():
     demo = os.path.join(d, "demo.rs")
     if os.path.exists(demo) and "--skip-demo" not in a:
         name = "demo_seeded_eval"
-        sh("cp %s %s/rust/tests/%s.rs" % (demo, repo_wt, name))
+        sh("mkdir -p %s/rust/tests && cp %s %s/rust/tests/%s.rs" % (repo_wt, demo, repo_wt, name))
         rc1, out1 = sh("cargo test --offline --test %s 2>&1 | tail -15" % name, cwd=repo_wt + "/rust")
         bad = "test result: FAILED" in out1 or "panicked" in out1
         sh("git apply -R --whitespace=nowarn %s/patch.diff" % d, cwd=repo_wt)
@@ -70,8 +73,8 @@ def main():
     sh("git checkout -q -- . ; git checkout -q --detach $(git -C /verif rev-parse HEAD)", cwd=verif_wt)
     sh("ln -sfn %s %s/repo" % (repo_wt, verif_wt))
     res["verif_head"] = sh("git rev-parse --short HEAD", cwd=verif_wt)[1].strip()
-    res["checks"] = {}
-    for pid in props:
+    res.setdefault("checks", {})
+    for pid in ([] if "--skip-checks" in a else props):
         for tier in tiers:
             t = time.time()
             rc, out = sh("./check %s %s 2>&1 | tail -12" % (pid, tier), cwd=verif_wt, timeout=5400)
